@@ -264,7 +264,13 @@ def main():
         # ---- 4. thorough tier: probe of the proof itself - the same contract on concrete shapes (quantifier-free instances);
         # a solver model there that fails natively would be a violation the unbounded proof missed (engine unsoundness)
         if tier == "thorough" and not unproved and proof_error is None and C.refute and C.native_ok and not out["refutations"]:
-            found, tried = refute_by_shapes(C, case, reg, contracts, lib, deadline=time.time() + 45, max_models=3)
+            try:
+                found, tried = refute_by_shapes(C, case, reg, contracts, lib, deadline=time.time() + 45, max_models=3)
+            except Exception as e:
+                # the probe is an extra look for counterexamples; a spec that cannot be evaluated on some concrete shape ends the
+                # probe, it is not a verdict about the code
+                found, tried = [], 0
+                out["cover"]["thorough_shape_probe_error"] = str(e)[:200]
             out["cover"]["thorough_shape_probe"] = {"shapes": tried, "models": len(found)}
             for f in found:
                 nargs = f["args"]
